@@ -913,14 +913,21 @@ def probe_c09(ctx, pf):
             except Exception as ex:
                 ctx.violation(f"c09:{cname}:solve-raise", f"{cname}: solve after a history raised {type(ex).__name__}: {ex}", dict(L, variable=vi))
                 break
-        # copies are independent of their originals
+        # copies and arithmetic results are independent of their originals (values AND boundary conditions): edit the derived
+        # variable, then solve the original and compare with a fresh start made BEFORE the edit
         v = world.vars[0]
-        c = v.copy()
-        before = (np.array(v._value), [np.array(getattr(v.BCs, s).c) for s in ("left", "right")])
-        c.value = c.value + 1.0; c.BCs.left.c = 123.0; c.BCs.right.a = 7.0
-        n += 1
-        if not np.array_equal(before[0], v._value) or any(not np.array_equal(x, np.array(getattr(v.BCs, s).c)) for x, s in zip(before[1], ("left", "right"))):
-            ctx.violation(f"c09:{cname}:copy-independent", f"{cname}: modifying a copy changed the original", L)
+        for nm, mk in (("copy()", lambda: v.copy()), ("-v", lambda: -v), ("2.0*v", lambda: 2.0 * v), ("v+1.0", lambda: v + 1.0), ("abs(v)", lambda: abs(v))):
+            import copy as _cp
+            with np.errstate(all="ignore"):
+                fresh = pf.CellVariable(world.mesh, np.array(v.value), _cp.deepcopy(v.BCs))
+                w = mk()
+                w.value = np.asarray(w.value) + 1.0; w.BCs.left.c = 123.0; w.BCs.right.a = 7.0; w.BCs.right.b = 1.0
+                a1 = v.copy(); pf.solvePDE(a1, [pf.transientTerm(a1, 0.7, 1.0), -pf.diffusionTerm(D)])
+                pf.solvePDE(fresh, [pf.transientTerm(fresh, 0.7, 1.0), -pf.diffusionTerm(D)])
+            n += 1
+            if np.all(np.isfinite(fresh._value)) and rel(a1._value, fresh._value) > 1e-9:
+                ctx.violation(f"c09:{cname}:independent:{nm}", f"{cname}: editing the values / boundary conditions of {nm} changed what the original variable solves to", dict(L, derived=nm))
+                break
     return n
 
 
@@ -1286,6 +1293,8 @@ def probe_c07(ctx, pf):
             continue   # generator could not make it divergence-free (should not happen)
         BC = pf.BoundaryConditions(mesh)
         dvals = []
+        sink = rng.random() < 0.4
+        shift = 0.0 if sink else rng.choice([0.0, 1.0, 1.0])    # without sink the bound is the data range itself: use data away from 0
         for ax in range(d):
             radial = gen.AXKIND[cname][ax] == "rad"
             comp = (u._xvalue, u._yvalue, u._zvalue)[ax]
@@ -1305,7 +1314,7 @@ def probe_c07(ctx, pf):
                 if kind == "dirichlet":
                     if radial and s == "left" and fs[0][0] == 0.0:
                         continue   # the axis r = 0 is not a boundary: keep no-flux
-                    c = np.array([rng.uniform(0, 1) for _ in range(f.c.size)]).reshape(f.c.shape)
+                    c = shift + np.array([rng.uniform(0, 1) for _ in range(f.c.size)]).reshape(f.c.shape)
                     f.a[:] = 0.0; f.b[:] = 1.0; f.c[:] = c; dvals += c.ravel().tolist()
                 elif kind == "periodic":
                     f.periodic = True
@@ -1318,16 +1327,34 @@ def probe_c07(ctx, pf):
                 lo_idx = tuple(0 if i == ax else slice(None) for i in range(d)); hi_idx = tuple(-1 if i == ax else slice(None) for i in range(d))
                 Da[ax][hi_idx] = Da[ax][lo_idx]
         D = pf.FaceVariable(mesh, *Da)
-        sink = rng.random() < 0.4
         beta = pf.CellVariable(mesh, (np.abs(gen.cell_array(rng, mesh))[interior_slices(d)] * (10.0 ** rng.uniform(-2, 2))) if sink else 0.0)
         inner = np.array([rng.uniform(0, 1) for _ in range(int(np.prod(mesh.dims)))]).reshape(tuple(int(k) for k in mesh.dims))
         if rng.random() < 0.3:
             inner = (inner > 0.5).astype(float)
+        inner = inner + shift
         phi = pf.CellVariable(mesh, inner, BC)
         L = lab(cname, fs, D=tuple(Da), u=(u._xvalue, u._yvalue, u._zvalue), phi_interior=inner, sink=sink)
         L["bc"] = {s: {"a": np.asarray(getattr(BC, s).a).tolist(), "b": np.asarray(getattr(BC, s).b).tolist(), "c": np.asarray(getattr(BC, s).c).tolist(),
                        "periodic": bool(getattr(BC, s).periodic)} for ax in range(d) for s in SIDES[ax]}
         Md, Mu, Mb = pf.diffusionTerm(D), pf.convectionUpwindTerm(u), pf.linearSourceTerm(beta)
+        # sharpest instance of the range statement: uniform data (initial field and every Dirichlet value equal to c, no sink)
+        # must stay exactly uniform in a discretely divergence-free flow, for every dt
+        BCc = pf.BoundaryConditions(mesh)
+        for ax in range(d):
+            for sd in SIDES[ax]:
+                f0, f1 = getattr(BC, sd), getattr(BCc, sd)
+                f1.a[:] = np.asarray(f0.a); f1.b[:] = np.asarray(f0.b); f1.periodic = f0.periodic
+                f1.c[:] = np.where(np.asarray(f0.b) != 0, 1.75, 0.0).reshape(f1.c.shape)
+        xc = pf.CellVariable(mesh, 1.75, BCc)
+        for dtc in (1e-2, 1.0, 1e3):
+            with np.errstate(all="ignore"):
+                pf.solvePDE(xc, [pf.transientTerm(xc, dtc, 1.0), -Md, Mu])
+            n += 1
+            dev = float(np.max(np.abs(np.asarray(xc.value) - 1.75)))
+            if not dev <= 1e-7:
+                ctx.violation(f"c07:{cname}:uniform", f"{cname}: a uniform field with matching Dirichlet data leaves its (single-point) range by {dev:.3g} in a divergence-free flow (dt={dtc:g})",
+                              dict(L, dt=dtc, value=1.75, result=np.asarray(xc.value)))
+                break
         nsteps = 3 if ctx.tier == "quick" else 6
         for step in range(nsteps):
             dt = 10.0 ** rng.uniform(-4, 4)
